@@ -478,32 +478,6 @@ func detProcessLocalWrites(r *Run, sc *Scopes, onlyPkgs ...string) {
 		})
 		return what, ok
 	}
-	mutatesMapParam := func(fn *ssa.Function) map[int]bool {
-		out := map[int]bool{}
-		if fn == nil || fn.Blocks == nil {
-			return out
-		}
-		for _, f := range withAnon(fn) {
-			eachInstr(f, func(in ssa.Instruction) {
-				var m ssa.Value
-				switch x := in.(type) {
-				case *ssa.MapUpdate:
-					m = x.Map
-				case *ssa.Call:
-					if b, ok := x.Call.Value.(*ssa.Builtin); ok && (b.Name() == "delete" || b.Name() == "clear") && len(x.Call.Args) > 0 {
-						m = x.Call.Args[0]
-					}
-				}
-				if m == nil {
-					return
-				}
-				if p, ok := stripValue(m).(*ssa.Parameter); ok {
-					out[paramIndex(fn, p)] = true
-				}
-			})
-		}
-		return out
-	}
 	for _, fn := range sc.S.HaqqFuncs() {
 		if isTestSupport(P, fn) || isGeneratedFile(P.FileOf(fnPos(fn))) || !inOnly(fn) {
 			continue
@@ -743,4 +717,32 @@ func checkRederivedFieldReaders(r *Run, sc *Scopes) {
 	}
 	r.Count("R4 EVMConfig calls in query scope", n)
 	r.Floor("R4", "EVMConfig calls in query scope", n, 4)
+}
+
+// mutatesMapParam: indices of the map-typed parameters fn (or its closures) writes into or deletes from.
+func mutatesMapParam(fn *ssa.Function) map[int]bool {
+	out := map[int]bool{}
+	if fn == nil || fn.Blocks == nil {
+		return out
+	}
+	for _, f := range withAnon(fn) {
+		eachInstr(f, func(in ssa.Instruction) {
+			var m ssa.Value
+			switch x := in.(type) {
+			case *ssa.MapUpdate:
+				m = x.Map
+			case *ssa.Call:
+				if b, ok := x.Call.Value.(*ssa.Builtin); ok && (b.Name() == "delete" || b.Name() == "clear") && len(x.Call.Args) > 0 {
+					m = x.Call.Args[0]
+				}
+			}
+			if m == nil {
+				return
+			}
+			if p, ok := stripValue(m).(*ssa.Parameter); ok {
+				out[paramIndex(fn, p)] = true
+			}
+		})
+	}
+	return out
 }
